@@ -722,6 +722,7 @@ class Exec:
             for i, a in enumerate(args): frame[i + 1] = Cell(a)
             blocks = fn.blocks; bb = 0
             while True:
+                if self.env.get('trace_fn') and self.env['trace_fn'] in fn.name: print('TRACE', fn.name, 'bb%d' % bb)
                 for st in blocks[bb]:
                     self.steps += 1
                     k = st[0]
@@ -858,13 +859,16 @@ class Exec:
             ep = '::'.join(segs[:-1])
             vs = self.w.variants(ep)
             if vs and segs[-1] in vs:
-                return Agg(self.w.enum_key(ep), vs.index(segs[-1]), fields)
+                k = self.w.enum_key(ep)
+                # std::cmp::Ordering is kept by discriminant value (-1, 0, 1), as the comparison models produce it
+                return Agg(k, vs.index(segs[-1]) - (1 if k == 'Ordering' else 0), fields)
         if not fields and not braces and dest is not None and not dest[2]:
             ty = fn.local_types.get(dest[1])
             if ty:
                 vs = self.w.variants(ty)
                 if vs and segs[-1] in vs:
-                    return Agg(self.w.enum_key(ty), vs.index(segs[-1]), fields)
+                    k = self.w.enum_key(ty)
+                    return Agg(k, vs.index(segs[-1]) - (1 if k == 'Ordering' else 0), fields)
         return Agg(segs[-1], None, fields)
 
     def discr(self, a):
